@@ -72,7 +72,7 @@ structure ArgsOK (reg : Reg) (defs : List InField) : Prop where
   pyNamesDistinct : (defs.map (fun d => d.pyName)).Nodup
 
 def Lit.isLeaf : Lit → Bool
-  | .null => true | .int _ => true | .float _ _ => true | .str _ => true | .bool _ => true | .enum _ => true
+  | .null => true | .int _ => true | .float _ => true | .str _ => true | .bool _ => true | .enum _ => true
   | _ => false
 
 /-- The variables used inside literal `l` at a position of type `ty` hold values that fit that position
@@ -114,8 +114,8 @@ inductive VarsAllowed (reg : Reg) (defs : List VarDef) : Ty → Bool → Lit →
 /-- the literal spelling of a JSON scalar, type-blind (what a custom scalar's `parse_literal` is handed) -/
 inductive LeafSpell : JV → Lit → Prop
   | int {k : Int} : LeafSpell (.int k) (.int k)
-  | float {t : String} {i : Option Int} {c : FCls} : LeafSpell (.float t i c) (.float t c)
-  | str {s : String} {a : Option Int} {b : Option (String × Option Int × FCls)} : LeafSpell (.str s a b) (.str s)
+  | float {t : String} : LeafSpell (.float t) (.float t)
+  | str {s : String} : LeafSpell (.str s) (.str s)
   | bool {b : Bool} : LeafSpell (.bool b) (.bool b)
 
 /-- A custom scalar whose two parsers agree on every JSON scalar and its literal spelling (same value, or both refuse).
@@ -135,17 +135,16 @@ inductive AstOfJson (reg : Reg) : Ty → JV → Lit → Prop
   | nonNull {t : Ty} {j : JV} {l : Lit} : t.isNonNull = false → AstOfJson reg t j l → AstOfJson reg (.nonNull t) j l
   | intInt {n : String} {k : Int} : reg.get? n = some .int → AstOfJson reg (.named n) (.int k) (.int k)
   | floatInt {n : String} {k : Int} : reg.get? n = some .float → AstOfJson reg (.named n) (.int k) (.int k)
-  | floatFloat {n : String} {t : String} {i : Option Int} {c : FCls} : reg.get? n = some .float →
-      AstOfJson reg (.named n) (.float t i c) (.float t c)
-  | string {n : String} {s : String} {a : Option Int} {b : Option (String × Option Int × FCls)} : reg.get? n = some .string →
-      AstOfJson reg (.named n) (.str s a b) (.str s)
+  | floatFloat {n : String} {t : String} : reg.get? n = some .float → AstOfJson reg (.named n) (.float t) (.float t)
+  | string {n : String} {s : String} : reg.get? n = some .string →
+      AstOfJson reg (.named n) (.str s) (.str s)
   | boolean {n : String} {b : Bool} : reg.get? n = some .boolean → AstOfJson reg (.named n) (.bool b) (.bool b)
-  | idStr {n : String} {s : String} {a : Option Int} {b : Option (String × Option Int × FCls)} : reg.get? n = some .id →
-      AstOfJson reg (.named n) (.str s a b) (.str s)
+  | idStr {n : String} {s : String} : reg.get? n = some .id →
+      AstOfJson reg (.named n) (.str s) (.str s)
   | idInt {n : String} {k : Int} : reg.get? n = some .id → AstOfJson reg (.named n) (.int k) (.int k)
   | custom {n : String} {j : JV} {l : Lit} : reg.get? n = some .custom → LeafSpell j l → AstOfJson reg (.named n) j l
-  | enum {n : String} {vs : List (String × PV)} {s : String} {a : Option Int} {b : Option (String × Option Int × FCls)} :
-      reg.get? n = some (.enum vs) → AstOfJson reg (.named n) (.str s a b) (.enum s)
+  | enum {n : String} {vs : List (String × PV)} {s : String} :
+      reg.get? n = some (.enum vs) → AstOfJson reg (.named n) (.str s) (.enum s)
   | list {t : Ty} {js : List JV} {ls : List Lit} : AstOfJsonL reg t js ls → AstOfJson reg (.list t) (.list js) (.list ls)
   | single {t : Ty} {j : JV} {l : Lit} : (∀ js, j ≠ .list js) → AstOfJson reg t j l → AstOfJson reg (.list t) j l
   | obj {n : String} {fs : List InField} {kvs : List (String × JV)} {lkvs : List (String × Lit)} :
